@@ -12,6 +12,7 @@
 
 pub mod oracle;
 pub mod strings;
+mod surface;
 
 use crypto_bigint::{BoxedUint, DecodeError, Uint};
 use num_bigint::BigUint;
@@ -22,7 +23,7 @@ use vmodel::*;
 pub fn spec() -> PropSpec {
     PropSpec {
         id: "C17",
-        rule: "cases: (a) round trip — a primary radix drawn from 2..=36 and a value of the target width built for that radix (0, 1, 2^BITS-1-{0,1,2}, radix^j, radix^j±1 with j biased to 0..2 / multiples of the per-limb digit batch ±1 / the largest exponent, sparse digits, q*radix^batch+r with a quotient limb at radix^batch±{0,1}, shapes L/T/Z, mixture); the value is formatted in EVERY radix 2..=36 and compared with BigUint::to_str_radix, the canonical numeral is parsed back by every parse API, and in the primary radix three legitimate spellings (optional '+', leading zeros, single interior underscores by grouping / few / mask, lower / UPPER / mixed case) are parsed; (b) parse — a string (decorated numeral of a value at / around 2^BITS of the target: 2^BITS, 2^BITS±1, 2^BITS+word, neighbouring powers of the radix, one limb too wide, multiples of 2^BITS, in range; the same spoiled by a leading / trailing / doubled underscore, a digit >= radix, an ASCII neighbour of the digit ranges, punctuation, non-ASCII, a second '+'; fixed specials such as \"\", \"+\", \"_\"; random strings over [0-9a-zA-Z_+]; arbitrary bytes) is classified by an independent digit evaluator and every parse API must give the documented outcome. per-limb batch(radix) = 64/log2(radix) for radix 2, 4, 16, else the largest j with radix^j <= 2^64-1. non-trivial: the digit count (alphanumerics after an optional '+' and leading zeros / underscores) is not a multiple of batch(radix), OR the denoted value is within 1 of 2^BITS of the target (2^BITS-1, 2^BITS, 2^BITS+1), OR the target has more than 32 limbs; distinct by (radix, value limbs, spellings) resp. (radix, target limbs, string).",
+        rule: "cases: (a) round trip — a primary radix drawn from 2..=36 and a value of the target width built for that radix (0, 1, 2^BITS-1-{0,1,2}, radix^j, radix^j±1 with j biased to 0..2 / multiples of the per-limb digit batch ±1 / the largest exponent, sparse digits, q*radix^batch+r with a quotient limb at radix^batch±{0,1}, shapes L/T/Z, mixture); the value is formatted in EVERY radix 2..=36 and compared with BigUint::to_str_radix, the canonical numeral is parsed back by every parse API, and in the primary radix three legitimate spellings (optional '+', leading zeros, single interior underscores by grouping / few / mask, lower / UPPER / mixed case) are parsed; (b) parse — a string (decorated numeral of a value at / around 2^BITS of the target: 2^BITS, 2^BITS±1, 2^BITS+word, neighbouring powers of the radix, one limb too wide, multiples of 2^BITS, in range; the same spoiled by a leading / trailing / doubled underscore, a digit >= radix, an ASCII neighbour of the digit ranges, punctuation, non-ASCII, a second '+'; fixed specials such as \"\", \"+\", \"_\"; random strings over [0-9a-zA-Z_+]; arbitrary bytes) is classified by an independent digit evaluator and every parse API must give the documented outcome. per-limb batch(radix) = 64/log2(radix) for radix 2, 4, 16, else the largest j with radix^j <= 2^64-1. non-trivial: the digit count (alphanumerics after an optional '+' and leading zeros / underscores) is not a multiple of batch(radix), OR the denoted value is within 1 of 2^BITS of the target (2^BITS-1, 2^BITS, 2^BITS+1), OR the target has more than 32 limbs; surface/* sub-checks: the same two case kinds at 5, 6, 7, 9, 17, 31, 32, 33 limbs, and formatting through the Deref of NonZero / Odd (fixed and boxed) plus parsing through a function generic over num_traits::Num (same rule). distinct by (radix, value limbs, spellings) resp. (radix, target limbs, string).",
         assumptions: vec![
             "num-bigint to_str_radix / from_radix_be are correct (independent implementation)".into(),
             "grammar taken from the item docs: optional leading '+', underscores separate digits (interior, single); a doubled interior underscore is unspecified: the denoted value or InvalidDigit are both accepted".into(),
@@ -480,6 +481,7 @@ fn subchecks(ctx: &Ctx) -> Vec<SubCheck> {
         // straddle the 32-limb large-divisor threshold with fixed widths, and a second large round
         fixed!(v, 400, 3000; 32, 33, 64);
     }
+    v.extend(surface::subchecks(ctx));
     v.push(SubCheck::new("boxed/roundtrip/1..=40", 16000, boxed_roundtrip_case(40)).tape(200));
     v.push(SubCheck::new("boxed/roundtrip/1..=140", 6000, boxed_roundtrip_case(140)).tape(480));
     v.push(SubCheck::new("boxed/parse/1..=40", 40000, boxed_parse_case(40)).tape(260));
